@@ -195,6 +195,33 @@ func (w *world) stepEthCall(r *Rng) stepOut {
 	return stepOut{kind: "ethcall", canon: fmt.Sprintf("ethcall|%s|%x|%d|%s|%v", s.name, s.data, gas, outcome, predicted), nontrivial: a.code == 0, desc: cs}
 }
 
+// stepGasCap: which gas limit an eth_call really runs with (request gas vs the node's cap), read back from a
+// contract that returns GAS.
+func (w *world) stepGasCap(r *Rng) stepOut {
+	gasCap := []uint64{0, defaultGasCap, 50_000_000, 100_000, 21_017, 21_016, 21_002, 21_000, 20_000, 1}[r.Intn(10)]
+	argsGas := []uint64{0, 0, 21_000, 21_002, 21_016, 21_017, 21_018, 30_000, 100_000, 100_001, 26_000_000, 1 << 40, 1 << 62}[r.Intn(13)]
+	s := callSpec{name: "gas-reporter", to: p(w.gasr)}
+	from := w.senders[r.Intn(4)].GetEthAddress()
+	cs := w.desc("gascap", "gasCap", gasCap, "argsGas", argsGas)
+	var res callResult
+	a := w.twice(r, "EthCall", cs, func() answer {
+		x, a := w.ethCall(s, from, argsGas, gasCap, 0)
+		res = x
+		return a
+	})
+	obs := "None"
+	if a.code == 0 && res.vmErr == "" && len(res.ret) == 32 {
+		obs = "(Some " + CqN(new(big.Int).SetBytes(res.ret).Uint64()) + ")"
+	}
+	ag := "None"
+	if argsGas != 0 {
+		ag = "(Some " + CqN(argsGas) + ")"
+	}
+	w.side.Count(fmt.Sprintf("gascap:answered=%v", obs != "None"))
+	return stepOut{kind: "gascap", canon: fmt.Sprintf("gascap|%d|%d|%s", gasCap, argsGas, obs), nontrivial: obs != "None", desc: cs,
+		coq: fmt.Sprintf("QGas %s %s %s", CqN(gasCap), ag, obs)}
+}
+
 // ------------------------------------------------------------------ gas estimation
 
 // probe = executable(gas) of EstimateGas: the real ApplyMessageWithConfig(commit=false) on a fresh query context.
@@ -899,4 +926,3 @@ func (w *world) stepBlock(r *Rng) stepOut {
 	return stepOut{kind: "block", canon: fmt.Sprintf("block|%v|%d|%s|%d", names, okc, extra, w.c.Height), nontrivial: n > 0, desc: cs}
 }
 
-var _ = big.NewInt
